@@ -123,7 +123,7 @@ func (u Union) generateDecodeBebop(w *iohelp.ErrorWriter, settings GenerateSetti
 		writeLine(w, "\t\tcase %d:", fd.num)
 		name := exposeName(fd.Name, settings)
 		writeLine(w, "\t\t\tbbp.%[1]s = new(%[2]s)", name, fd.FieldType.goString(settings))
-		writeMessageFieldUnmarshaller("bbp."+name, fd.FieldType, w, settings, 3)
+		writeStructFieldUnmarshaller("&(*bbp."+name+")", fd.FieldType, w, settings, 3)
 		writeLine(w, "\t\t\tr.Drain()")
 		writeLine(w, "\t\t\tr.Reader = baseReader")
 		writeLine(w, "\t\t\treturn r.Err")
